@@ -198,6 +198,31 @@ var registry = []HarnessSpec{
 		Desc:   "float32 destinations: accepted iff the rounded float32 is finite (as encoding/json), for all finite doubles",
 		Bounds: "all finite float64 bit patterns"},
 
+	{Prop: "C01", Pkg: mod + "/internal/caching", PkgName: "caching", Func: "VerifC01FieldMap", Tier: "quick", Covers: []string{"fold-only", "exact", "absent"},
+		Desc:    "caching.FieldMap (struct field lookup of the decoders): Get = first field with exactly this name, GetCaseInsensitive = smallest index matching ignoring ASCII case, -1 otherwise; every hash placement",
+		Bounds:  "1..2 fields, 1-byte names over {a,A,b}, key over the same alphabet; strhash uninterpreted and injective",
+		Assumes: []string{"ASCII names (strings.ToLower modelled on ASCII; non-ASCII folding differs from encoding/json and is outside the bound)"}},
+	{Prop: "C18", Pkg: mod + "/internal/encoder", PkgName: "encoder", Func: "VerifC18EncoderSetters", Tier: "quick", Covers: []string{"end"},
+		Desc:   "every Encoder setter changes exactly its own bit of an arbitrary option word; option constants equal the shared bit positions (alg.Bit*)",
+		Bounds: "7 setters x on/off x every 64-bit option word"},
+	{Prop: "C03", Pkg: mod + "/internal/encoder", PkgName: "encoder", Func: "VerifC03EncodeFinish", Tier: "quick", Covers: []string{"end"},
+		Desc:   "encodeFinish / encodeFinishWithPool: EscapeHTML then ValidateString post-passes, each exactly once, exactly when the option is set, for every option word",
+		Bounds: "every 64-bit option word, valid/invalid UTF-8 verdicts, both variants; the passes themselves are stubs"},
+	{Prop: "C18", Pkg: mod + "/internal/encoder", PkgName: "encoder", Func: "VerifC03EncodeFinish", Tier: "quick", Covers: []string{"end"},
+		Desc:   "EscapeHTML / ValidateString select exactly their post-pass and nothing else",
+		Bounds: "as VerifC03EncodeFinish"},
+	{Prop: "C09", Pkg: mod + "/internal/encoder/vars", PkgName: "vars", Func: "VerifC09FindOrCompile", Tier: "quick", Covers: []string{"end"},
+		Desc:   "vars.FindOrCompile(vt, pv): the program returned is the one compiled for exactly (vt, pv), whatever was requested before",
+		Bounds: "two consecutive requests for one type with symbolic pointer-value flags; compiler uninterpreted"},
+	{Prop: "C20", Pkg: mod + "/utf8", PkgName: "utf8", Func: "VerifC20CorrectWith", Tier: "quick", Covers: []string{"long", "end"},
+		Desc:    "utf8.CorrectWith: exactly the reported invalid bytes replaced by repl, all others kept in order, dst prefix preserved, across refills of the position list",
+		Bounds:  "inputs of 0..4 symbolic bytes, every subset of invalid positions, list flushed every 2 positions",
+		Assumes: []string{"native validate_utf8 contract (native/native.h): appends increasing invalid positions, returns non-zero when the list is full with *p at the first unrecorded invalid byte"}},
+	{Prop: "C07", Pkg: mod + "/ast", PkgName: "ast", Func: "VerifC07AstErrorDescription", Tier: "quick", Covers: []string{"end"},
+		Desc:    "ast.SyntaxError.Description/Error never panic for positions inside the source",
+		Bounds:  "source length 0..40, 0 <= Pos <= len, codes 0..12",
+		Assumes: []string{"producers report 0 <= Pos <= len(Src) (Parser.syntaxError uses the parser cursor)"}},
+
 	{Prop: "C14", Pkg: mod + "/ast", PkgName: "ast", Func: "VerifC14ObjectGet", Tier: "quick", Covers: []string{"missing", "found", "duplicate"},
 		Desc:    "Node.Get on a raw object: first occurrence of the key or not-exist; Raw() and Int64() of the located node describe exactly that value",
 		Bounds:  "objects of 3 pairs, 1-byte keys over {a,b} (duplicates included), 1-digit values, search key over {a,b,c}",
